@@ -18,6 +18,7 @@ pub mod trusted_clone {
 broadcast use trusted_clone::axiom_vecdeque_clone_len;
 
 //@include vx_prelude.rs
+//@include std_more.rs
 
 // ---- trusted: the engine's node, opaque.  Foreign cells (R8): a read returns the value of an
 //      uninterpreted spec function of the node (pre-state); writes have no postcondition. ----
@@ -124,7 +125,7 @@ impl AdjustHeightsHeap {
 //@ impl: impl AdjustHeightsHeap
 //@ name: is_empty
 //@ as: fn is_empty(&self) -> (r: bool)
-//@ props: C19
+//@ props: C05 C06 C11 C19
 //@ contract:
 //@|     ensures r == (self.length == 0), // [empty-iff-length-zero]
 //@end
@@ -134,7 +135,7 @@ impl AdjustHeightsHeap {
 //@ impl: impl AdjustHeightsHeap
 //@ name: max_height_allowed
 //@ as: fn max_height_allowed(&self) -> (r: i32)
-//@ props: C19
+//@ props: C05 C06 C11 C19
 //@ contract:
 //@|     requires self.wf(),
 //@|     ensures r == self.mha(), // [limit-is-bucket-count-minus-one]
@@ -145,7 +146,7 @@ impl AdjustHeightsHeap {
 //@ impl: impl AdjustHeightsHeap
 //@ name: new
 //@ as: fn new(max_height_allowed: usize) -> (r: Self)
-//@ props: C19
+//@ props: C05 C06 C11 C19
 //@ contract:
 //@|     requires max_height_allowed < 0x7fff_fffe,
 //@|     ensures
@@ -159,7 +160,7 @@ impl AdjustHeightsHeap {
 //@ impl: impl AdjustHeightsHeap
 //@ name: set_height
 //@ as: fn set_height(&mut self, node: &NodeRef, height: i32)
-//@ props: C19
+//@ props: C05 C06 C11 C19
 //@ contract:
 //@|     requires old(self).inv(), height <= old(self).mha(),
 //@|     ensures
@@ -174,7 +175,7 @@ impl AdjustHeightsHeap {
 //@ name: set_height
 //@ as: fn set_height__must_panic(&mut self, node: &NodeRef, height: i32)
 //@ panics: diverge
-//@ props: C19
+//@ props: C05 C06 C11 C19
 //@ contract:
 //@|     requires old(self).inv(), height > old(self).mha(),
 //@|     ensures false, // [height-above-limit-always-panics]
@@ -185,7 +186,7 @@ impl AdjustHeightsHeap {
 //@ impl: impl AdjustHeightsHeap
 //@ name: add_unless_mem
 //@ as: fn add_unless_mem(&mut self, node: NodeRef)
-//@ props: C19
+//@ props: C05 C06 C11 C19
 //@ contract:
 //@|     requires
 //@|         old(self).inv(),
@@ -202,7 +203,7 @@ impl AdjustHeightsHeap {
 //@ name: remove_min
 //@ as: fn remove_min(&mut self) -> (r: Option<NodeRef>)
 //@ attr: #[verifier::exec_allows_no_decreases_clause]
-//@ props: C11 C19
+//@ props: C05 C06 C11 C19
 //@ contract:
 //@|     requires old(self).walk_inv(),
 //@|     ensures
@@ -233,7 +234,7 @@ impl AdjustHeightsHeap {
 //@ impl: impl AdjustHeightsHeap
 //@ name: set_max_height_allowed
 //@ as: fn set_max_height_allowed(&mut self, new_mha: usize)
-//@ props: C06 C19
+//@ props: C05 C06 C11 C19
 //@ contract:
 //@|     requires
 //@|         old(self).inv(),
@@ -252,7 +253,7 @@ impl AdjustHeightsHeap {
 //@ name: set_max_height_allowed
 //@ as: fn set_max_height_allowed__must_panic(&mut self, new_mha: usize)
 //@ panics: diverge
-//@ props: C06 C19
+//@ props: C05 C06 C11 C19
 //@ contract:
 //@|     requires
 //@|         old(self).inv(),
@@ -266,7 +267,7 @@ impl AdjustHeightsHeap {
 //@ impl: impl AdjustHeightsHeap
 //@ name: ensure_height_requirement
 //@ as: fn ensure_height_requirement(&mut self, original_child: &NodeRef, original_parent: &NodeRef, child: &NodeRef, parent: &NodeRef)
-//@ props: C19
+//@ props: C05 C06 C11 C19
 //@ contract:
 //@|     requires
 //@|         old(self).inv(),
@@ -285,7 +286,7 @@ impl AdjustHeightsHeap {
 //@ name: ensure_height_requirement
 //@ as: fn ensure_height_requirement__cycle_must_panic(&mut self, original_child: &NodeRef, original_parent: &NodeRef, child: &NodeRef, parent: &NodeRef)
 //@ panics: diverge
-//@ props: C19
+//@ props: C05 C06 C11 C19
 //@ contract:
 //@|     requires
 //@|         old(self).inv(),
@@ -300,7 +301,7 @@ impl AdjustHeightsHeap {
 //@ as: fn ensure_height_requirement__too_high_must_panic(&mut self, original_child: &NodeRef, original_parent: &NodeRef, child: &NodeRef, parent: &NodeRef)
 //@ rule R8: `self.set_height(parent,` => `self.set_height__must_panic(parent,` x*
 //@ panics: diverge
-//@ props: C19
+//@ props: C05 C06 C11 C19
 //@ contract:
 //@|     requires
 //@|         old(self).inv(),
@@ -367,7 +368,7 @@ impl RecomputeHeap {
 //@ rule R5: `(max_height_allowed as i32 + 1).into()` => `(max_height_allowed as i32 + 1)` x1
 //@ rule R5: `0.into()` => `0` x1
 //@ rule R7: `for _ in` => `for _i in` x1
-//@ props: C19
+//@ props: C05 C06 C11 C19
 //@ contract:
 //@|     requires max_height_allowed < 0x7fff_fffe,
 //@|     ensures
@@ -384,7 +385,7 @@ impl RecomputeHeap {
 //@ name: max_height_allowed
 //@ as: fn max_height_allowed(&self) -> (r: i32)
 //@ cells: queues
-//@ props: C19
+//@ props: C05 C06 C11 C19
 //@ contract:
 //@|     requires self.wf(),
 //@|     ensures r == self.mha(), // [limit-is-bucket-count-minus-one]
@@ -396,10 +397,10 @@ impl RecomputeHeap {
 //@ name: set_max_height_allowed
 //@ as: fn set_max_height_allowed(&mut self, new_max_height: usize)
 //@ cells: queues, height_lower_bound
-//@ rule R5: `Queue::default()` => `RQueue::default()` x1
+//@ rule R5 re: `\bQueue::default\(\)` => `RQueue::default()` x*
 //@ rule R5: `queues[i].borrow().is_empty()` => `queues[i].is_empty()` x1
 //@ rule R4 re: `std::cmp::(min|max)\(` => `vx_\1_i32(` x*
-//@ props: C06 C19
+//@ props: C05 C06 C11 C19
 //@ loop 0:
 //@|     invariant queues@ == old(self).queues@, old(self).buckets_empty_from(new_max_height + 1), new_max_height < 0x7fff_fffe, self.height_lower_bound == old(self).height_lower_bound,
 //@ contract:
@@ -423,6 +424,7 @@ impl RecomputeHeap {
 //@ name: len
 //@ as: fn len(&self) -> (r: usize)
 //@ cells: length
+//@ props: C05 C06 C11 C19
 //@ contract:
 //@|     ensures r == self.length,
 //@end
